@@ -62,14 +62,12 @@ Proof.
   - apply cm_find_find. exact Hn.
 Qed.
 
-(* the join of getSpecialLineComment = strings.Join unless a block of >= 2 lines starts with an empty line *)
-Lemma fold_join_nonempty : forall ls a acc, 
-  fold_left join_step ls (a :: acc) = (a :: acc) ++ flat_map (fun l => 10 :: cl_str l) ls.
+(* the join of getSpecialLineComment (after the fix) = strings.Join(lines, "\n") *)
+Lemma fold_join : forall ls acc,
+  fold_left join_step ls acc = acc ++ flat_map (fun l => 10 :: cl_str l) ls.
 Proof.
-  induction ls as [|l ls IH]; intros a acc; [cbn [fold_left flat_map]; rewrite app_nil_r; reflexivity|].
-  cbn [fold_left flat_map]. unfold join_step at 2.
-  destruct ((a :: acc) ++ 10 :: cl_str l) as [|b r] eqn:E; [discriminate E|].
-  rewrite IH. rewrite <- E. rewrite <- app_assoc. reflexivity.
+  induction ls as [|l ls IH]; intros acc; [cbn [fold_left flat_map]; rewrite app_nil_r; reflexivity|].
+  cbn [fold_left flat_map]. unfold join_step at 2. rewrite IH. rewrite <- app_assoc. reflexivity.
 Qed.
 
 Lemma join_nl_texts_cons : forall a ls, join_nl_texts (a :: ls) = a ++ flat_map (fun t => 10 :: t) ls.
@@ -81,14 +79,11 @@ Qed.
 Lemma flat_map_map : forall (A B C : Type) (f : A -> B) (g : B -> list C) l, flat_map g (map f l) = flat_map (fun x => g (f x)) l.
 Proof. intros A B C f g l. induction l as [|x l IH]; [reflexivity|]. cbn [map flat_map]. rewrite IH. reflexivity. Qed.
 
-Lemma join_lines_eq : forall e, leading_empty e = false -> join_lines (ci_lines (snd e)) = entry_text e.
+Lemma join_lines_eq : forall e, join_lines (ci_lines (snd e)) = entry_text e.
 Proof.
-  intros [k ci] H. unfold leading_empty, entry_text in *. cbn [snd] in *. unfold join_lines.
+  intros [k ci]. unfold entry_text. cbn [snd]. unfold join_lines.
   destruct (ci_lines ci) as [|c ls]; [reflexivity|].
-  cbn [fold_left map]. unfold join_step at 2. rewrite join_nl_texts_cons, flat_map_map.
-  destruct (cl_str c) as [|a acc] eqn:Ec.
-  - destruct ls as [|c2 ls]; [reflexivity|discriminate H].
-  - apply fold_join_nonempty.
+  cbn [map]. rewrite join_nl_texts_cons, flat_map_map. apply fold_join.
 Qed.
 
 Lemma existsb_false_in : forall (A : Type) (f : A -> bool) l x, existsb f l = false -> In x l -> f x = false.
@@ -103,8 +98,7 @@ Proof. intros A f g l H. induction l as [|x l IH]; [reflexivity|]. cbn [find]. r
 Theorem attach_lookup : forall es, attach_guard es = true ->
   forall L, get_line_comment es L = spec_attach es L.
 Proof.
-  intros es G L. unfold attach_guard in G. apply andb_true_iff in G. destruct G as [G Hle].
-  apply andb_true_iff in G. destruct G as [Hpos Hnd]. apply negb_true_iff in Hle.
+  intros es G L. unfold attach_guard in G. apply andb_true_iff in G. destruct G as [Hpos Hnd].
   assert (Hspecial : forall K hd, special_line_comment es K hd =
             match find (fun e => Bool.eqb (ci_head (snd e)) hd && (fst e =? K)%Z) es with
             | Some e => entry_text e | None => [] end).
@@ -112,7 +106,7 @@ Proof.
     rewrite (find_refine (fun e => Bool.eqb (ci_head (snd e)) hd) K es Hnd).
     destruct (find (has_key K) es) as [e|] eqn:E; [|reflexivity]. cbn [option_map].
     destruct (Bool.eqb (ci_head (snd e)) hd); [|reflexivity].
-    apply join_lines_eq. apply (existsb_false_in _ _ _ _ Hle). apply find_some in E. apply E. }
+    apply join_lines_eq. }
   unfold get_line_comment, spec_attach. rewrite !Hspecial.
   assert (E1 : find (fun e => Bool.eqb (ci_head (snd e)) false && (fst e =? L)%Z) es = find (is_trailing_for L) es).
   { apply find_ext. intros e. unfold is_trailing_for. destruct (ci_head (snd e)); reflexivity. }
